@@ -56,7 +56,7 @@ def consts(families):
 
 # ---- the real code ------------------------------------------------------------
 
-WARNABLE = {"vm": {"buffers", "cached", "shared", "active", "inactive", "available"},
+WARNABLE = {"vm": {"buffers", "cached", "shared", "active", "inactive", "available", "slab"},
             "swap": {"sin", "sout"}}
 
 
@@ -428,8 +428,8 @@ def check(ctx):
         "pswpin and pswpout are modelled as one optional group (mm/vmstat.c prints both or neither); when only one of "
         "SwapTotal/SwapFree is shown, sysinfo(2) agrees with the one shown (both come from si_swapinfo)",
         "a RuntimeWarning 'names' a metric when its message contains that result field's name as a word; only the names "
-        "buffers/cached/shared/active/inactive/available (sin/sout for swap) are looked at; a missing Slab or SReclaimable "
-        "needs no warning and one naming slab is accepted; when MemAvailable is shown as 0 (not missing) and the estimate "
+        "buffers/cached/shared/active/inactive/available/slab (sin/sout for swap) are looked at; a missing Slab or SReclaimable "
+        "is reported as 0 without a warning (MemInfo.tla: WarnNeverSlab -- slab is the exception to the warning rule); when MemAvailable is shown as 0 (not missing) and the estimate "
         "replacing it is negative, available = 0 may or may not be named",
     ]
     fams = THOROUGH_FAMILIES if thorough else QUICK_FAMILIES
